@@ -390,6 +390,11 @@ func (e *Exec) checkGauges() {
 	}
 	e.out.Checks++
 	e.probe("gauges-zero-sampled")
+	// The bound is read before the snapshot is taken (as in checkStore): the
+	// persister's round callback may raise e.lb while this task is still
+	// reading an older, legitimate snapshot; judging that older content
+	// against the newer bound would make an ambiguous match look unambiguous.
+	lb0 := e.lb
 	content, ss, err := e.lowerContent()
 	if err != nil {
 		e.failD("store-read-error", map[string]string{"symptom": "error", "where": "store"}, "reading the lower level: %v", err)
@@ -420,7 +425,7 @@ func (e *Exec) checkGauges() {
 	// (only when the content match is unambiguous: with equal-content models the
 	// lower level may really be at an older prefix, which is the known
 	// structural-batch case of KF1 rather than anything new)
-	if e.store != nil && Advance(e.lb, e.hist.Match(content)) == n && simrt.Chance(0.15, "gauge-reopen") {
+	if e.store != nil && Advance(lb0, e.hist.Match(content)) == n && simrt.Chance(0.15, "gauge-reopen") {
 		e.drained = true
 		e.reopen(Op{})
 		e.probe("gauges-zero-reopen")
